@@ -105,19 +105,127 @@ pub struct CheckSpec {
 
 pub fn supervise(spec: &CheckSpec, thorough: bool, seed: u64, extra: Option<Report>) -> i32 {
     let t0 = Instant::now();
-    let nshards: usize = std::env::var("VERIF_SHARDS").ok().and_then(|s| s.parse().ok()).unwrap_or(16);
     let exe = std::env::current_exe().expect("current_exe");
+    let mut merged = Report::new();
+    if let Some(e) = extra {
+        merged.merge(e);
+    }
+    let limit = Duration::from_secs(std::env::var("VERIF_WATCHDOG").ok().and_then(|s| s.parse().ok()).unwrap_or(if thorough { spec.watchdog.1 } else { spec.watchdog.0 }));
+    run_workers(&exe, spec.prop, spec.prop, thorough, seed, limit, &mut merged);
+    if spec.prop == "C01" && thorough {
+        // the same workload in the build users ship (wrapping arithmetic): the verdict must not
+        // depend on which of the two was used
+        let fast = evidence_dir().join("harness/target/fast/avt_verif");
+        if fast.exists() {
+            run_workers(&fast, "C01", "C01", thorough, seed, limit, &mut merged);
+        } else {
+            merged.inconclusive("the release-arithmetic build (profile fast) is missing".into());
+        }
+        miri_shard(seed, &mut merged);
+    }
+    finish(spec, thorough, seed, merged, t0)
+}
+
+/// Low-yield belt-and-braces layer (DESIGN section 7): a small hostile shard under Miri.
+fn miri_shard(seed: u64, merged: &mut Report) {
+    let root = evidence_dir();
+    let n = 16usize;
+    let tmp = root.join("harness/target/run");
+    let mut kids = Vec::new();
+    for shard in 0..n {
+        let out = tmp.join(format!("C01miri-{}.rep", shard));
+        let _ = std::fs::remove_file(&out);
+        let child = Command::new("cargo")
+            .current_dir(root.join("harness"))
+            .env("MIRIFLAGS", "-Zmiri-disable-isolation")
+            .env("CARGO_NET_OFFLINE", "true")
+            .env("CARGO_TARGET_DIR", root.join("harness/target/miri"))
+            .args(["+nightly", "miri", "run", "--offline", "-q", "--"])
+            .arg("--worker")
+            .arg("C01miri")
+            .arg("thorough")
+            .arg(seed.to_string())
+            .arg(shard.to_string())
+            .arg(n.to_string())
+            .arg(&out)
+            .stdin(Stdio::null())
+            .stdout(Stdio::null())
+            .stderr(Stdio::piped())
+            .spawn();
+        match child {
+            Ok(c) => kids.push((shard, out, c)),
+            Err(e) => merged.inconclusive(format!("cannot start miri: {}", e)),
+        }
+        if shard == 0 {
+            // let the first process build the crate before the others start
+            if let Some((_, _, c)) = kids.last_mut() {
+                let t = Instant::now();
+                while t.elapsed() < Duration::from_secs(240) {
+                    if let Ok(Some(_)) = c.try_wait() {
+                        break;
+                    }
+                    std::thread::sleep(Duration::from_millis(200));
+                }
+            }
+        }
+    }
+    let t = Instant::now();
+    for (shard, out, mut c) in kids {
+        loop {
+            match c.try_wait() {
+                Ok(Some(status)) => {
+                    let text = std::fs::read_to_string(&out).unwrap_or_default();
+                    let mut err = String::new();
+                    if let Some(mut e) = c.stderr.take() {
+                        use std::io::Read;
+                        let _ = e.read_to_string(&mut err);
+                    }
+                    match Report::from_text(&text) {
+                        Some(r) if status.success() => merged.merge(r),
+                        _ => {
+                            if err.contains("Undefined Behavior") {
+                                let h = History::new(1, 1, None);
+                                merged.violation("C01", format!("Miri reports undefined behaviour in shard {}: {}", shard, err.chars().take(600).collect::<String>()), &h);
+                            } else {
+                                merged.inconclusive(format!("miri shard {} ended abnormally ({}): {}", shard, status, err.chars().take(300).collect::<String>()));
+                            }
+                        }
+                    }
+                    let _ = std::fs::remove_file(&out);
+                    break;
+                }
+                Ok(None) => {
+                    if t.elapsed() > Duration::from_secs(1500) {
+                        let _ = c.kill();
+                        let _ = c.wait();
+                        merged.inconclusive(format!("miri shard {} exceeded its watchdog", shard));
+                        break;
+                    }
+                    std::thread::sleep(Duration::from_millis(100));
+                }
+                Err(e) => {
+                    merged.inconclusive(format!("miri shard {}: {}", shard, e));
+                    break;
+                }
+            }
+        }
+    }
+}
+
+fn run_workers(exe: &std::path::Path, prop_arg: &str, prop: &str, thorough: bool, seed: u64, limit: Duration, merged: &mut Report) {
+    let t0 = Instant::now();
+    let nshards: usize = std::env::var("VERIF_SHARDS").ok().and_then(|s| s.parse().ok()).unwrap_or(16);
     let root = evidence_dir();
     let tmp = root.join("harness/target/run");
     let _ = std::fs::create_dir_all(&tmp);
     let tier = if thorough { "thorough" } else { "quick" };
     let mut children = Vec::new();
     for shard in 0..nshards {
-        let out = tmp.join(format!("{}-{}-{}.rep", spec.prop, tier, shard));
+        let out = tmp.join(format!("{}-{}-{}.rep", prop, tier, shard));
         let _ = std::fs::remove_file(&out);
-        let child = Command::new(&exe)
+        let child = Command::new(exe)
             .arg("--worker")
-            .arg(spec.prop)
+            .arg(prop_arg)
             .arg(tier)
             .arg(seed.to_string())
             .arg(shard.to_string())
@@ -128,20 +236,16 @@ pub fn supervise(spec: &CheckSpec, thorough: bool, seed: u64, extra: Option<Repo
             .stderr(Stdio::inherit())
             .spawn()
             .expect("spawn worker");
-        children.push((shard, out, child, false));
-    }
-    let limit = Duration::from_secs(if thorough { spec.watchdog.1 } else { spec.watchdog.0 });
-    let mut merged = Report::new();
-    if let Some(e) = extra {
-        merged.merge(e);
+        children.push((shard, out, child));
     }
     let mut pending = children.len();
     let mut done = vec![false; children.len()];
     while pending > 0 {
-        for (i, (shard, out, child, _)) in children.iter_mut().enumerate() {
+        for (i, (shard, out, child)) in children.iter_mut().enumerate() {
             if done[i] {
                 continue;
             }
+            let mut died: Option<String> = None;
             match child.try_wait() {
                 Ok(Some(status)) => {
                     done[i] = true;
@@ -149,7 +253,7 @@ pub fn supervise(spec: &CheckSpec, thorough: bool, seed: u64, extra: Option<Repo
                     let text = std::fs::read_to_string(&*out).unwrap_or_default();
                     match Report::from_text(&text) {
                         Some(r) if status.success() => merged.merge(r),
-                        _ => merged.inconclusive(format!("worker {} ended abnormally ({})", shard, status)),
+                        _ => died = Some(format!("ended abnormally ({})", status)),
                     }
                     let _ = std::fs::remove_file(&*out);
                 }
@@ -159,7 +263,7 @@ pub fn supervise(spec: &CheckSpec, thorough: bool, seed: u64, extra: Option<Repo
                         let _ = child.wait();
                         done[i] = true;
                         pending -= 1;
-                        merged.inconclusive(format!("worker {} exceeded the {}s watchdog", shard, limit.as_secs()));
+                        died = Some(format!("exceeded the {}s watchdog", limit.as_secs()));
                     }
                 }
                 Err(e) => {
@@ -168,10 +272,105 @@ pub fn supervise(spec: &CheckSpec, thorough: bool, seed: u64, extra: Option<Repo
                     merged.inconclusive(format!("worker {}: {}", shard, e));
                 }
             }
+            if let Some(why) = died {
+                let cur = format!("{}.cur", out.display());
+                if prop == "C01" {
+                    isolate_c01(exe, tier, seed, *shard, nshards, &cur, &why, merged);
+                } else {
+                    merged.inconclusive(format!("worker {} {}", shard, why));
+                }
+            }
+            if done[i] {
+                let _ = std::fs::remove_file(format!("{}.cur", out.display()));
+            }
         }
         std::thread::sleep(Duration::from_millis(20));
     }
-    finish(spec, thorough, seed, merged, t0)
+}
+
+/// A C01 worker died or stopped returning: re-run the batch it was in, unit by unit, each in a
+/// fresh process (16 at a time).  Only a unit that fails three times out of three is a violation;
+/// after the first confirmed culprit no further batches are isolated (one witness is enough).
+fn isolate_c01(exe: &std::path::Path, tier: &str, seed: u64, shard: usize, nshards: usize, cur_file: &str, why: &str, merged: &mut Report) {
+    if merged.get("violations[C01]") > 0 && merged.get("isolated_batches") > 0 {
+        merged.count("worker_deaths_not_isolated_after_first_culprit", 1);
+        return;
+    }
+    let cur = std::fs::read_to_string(cur_file).unwrap_or_default();
+    let Ok(u0) = cur.trim().parse::<usize>() else {
+        merged.inconclusive(format!("C01 worker {} {} outside the sharded workload ({:?}): not isolated", shard, why, cur.trim()));
+        return;
+    };
+    merged.count("isolated_batches", 1);
+    let tmp = evidence_dir().join("harness/target/run");
+    let per_unit = Duration::from_secs(std::env::var("VERIF_UNIT_WATCHDOG").ok().and_then(|s| s.parse().ok()).unwrap_or(if tier == "thorough" { 120 } else { 30 }));
+    // run a set of units concurrently; returns (unit, ok, text)
+    let run_set = |units: &[usize]| -> Vec<(usize, bool, String)> {
+        let mut kids = Vec::new();
+        for &u in units {
+            let out = tmp.join(format!("C01-single-{}-{}.txt", shard, u));
+            let _ = std::fs::remove_file(&out);
+            let c = Command::new(exe).arg("--single").arg("C01").arg(tier).arg(seed.to_string()).arg(u.to_string()).arg(&out).stdin(Stdio::null()).stdout(Stdio::null()).stderr(Stdio::null()).spawn();
+            kids.push((u, out, c.ok()));
+        }
+        let t = Instant::now();
+        let mut res = Vec::new();
+        for (u, out, c) in kids {
+            let ok = match c {
+                None => true,
+                Some(mut c) => loop {
+                    match c.try_wait() {
+                        Ok(Some(st)) => break st.success(),
+                        Ok(None) => {
+                            if t.elapsed() > per_unit {
+                                let _ = c.kill();
+                                let _ = c.wait();
+                                break false;
+                            }
+                            std::thread::sleep(Duration::from_millis(10));
+                        }
+                        Err(_) => break true,
+                    }
+                },
+            };
+            let text = std::fs::read_to_string(&out).unwrap_or_default();
+            let _ = std::fs::remove_file(&out);
+            let fine = ok && text.contains("\nOK\n");
+            res.push((u, fine, text));
+        }
+        res
+    };
+    let units: Vec<usize> = (0..crate::mon::c01::BATCH).map(|k| u0 + k * nshards).collect();
+    let mut failing: Vec<(usize, String)> = Vec::new();
+    for chunk in units.chunks(16) {
+        for (u, ok, text) in run_set(chunk) {
+            if ok {
+                if let Some(pos) = text.find("\nOK\n") {
+                    if let Some(r) = Report::from_text(&text[pos + 4..]) {
+                        merged.merge(r);
+                    }
+                }
+            } else {
+                failing.push((u, text));
+            }
+        }
+    }
+    let mut culprit = false;
+    for (u, text) in failing.into_iter().take(4) {
+        let again = run_set(&[u, u]);
+        if again.iter().all(|(_, ok, _)| !ok) {
+            culprit = true;
+            match History::from_text(&text) {
+                Some(h) => merged.violation("C01", format!("work unit {} kills the process or does not return within {}s (3 out of 3 isolated runs; worker {})", u, per_unit.as_secs(), why), &h),
+                None => merged.inconclusive(format!("work unit {} fails in isolation but its history could not be recorded", u)),
+            }
+        } else {
+            merged.inconclusive(format!("work unit {} failed once in isolation but not reproducibly", u));
+        }
+    }
+    if !culprit {
+        merged.inconclusive(format!("C01 worker {} {} but no unit of its batch reproduces it; the rest of its shard was not explored", shard, why));
+    }
 }
 
 pub fn finish(spec: &CheckSpec, thorough: bool, seed: u64, mut merged: Report, t0: Instant) -> i32 {
